@@ -716,6 +716,10 @@ func ruleLoadersShareLookup(c *Ctx, rule string) {
 			n++
 			args := call.Common().Args
 			bucket := args[len(args)-1]
+			// the lookup answering (bucket, found): its first result
+			if ex, isEx := bucket.(*ssa.Extract); isEx && ex.Index == 0 {
+				bucket = ex.Tuple
+			}
 			src, isCall := bucket.(*ssa.Call)
 			c.Check(isCall && isCallTo(src, lookup), rule, name+": FillEntity", p.Pos(call.Pos()), "the entity is filled from the bucket getEntityBucketForLoad found", "the entity is filled from "+describeValue(bucket)+" instead of the bucket the shared load lookup found: for an extended child store this loader no longer presents the parent's entities while the other loaders and the queries do")
 		}
